@@ -8,6 +8,7 @@ import (
 	"strings"
 
 	"verif/harness/core"
+	"verif/harness/srctab"
 
 	"github.com/Chocapikk/pgread/pgdump"
 )
@@ -234,6 +235,12 @@ func init() {
 			sort.Ints(cs)
 			elemc = append(elemc, fmt.Sprintf("(%d, %s)", a, natList(cs)))
 		}
+		// the table itself, from the source (package srctab)
+		def, err := srctab.LeanDef()
+		if err != nil {
+			panic("arrayElemTypes cannot be read from the source: " + err.Error())
+		}
+		out.WriteString(def)
 		out.WriteString("/-- (array oid, width with which its elements are read (0 = as varlenas), alignment applied before an element counted\nfrom the varlena start); 9999 = the probe found no consistent answer -/\n")
 		fmt.Fprintf(out, "def layout : List (Nat × Nat × Nat) := [%s]\n", strings.Join(layout, ", "))
 		out.WriteString("/-- (array oid, the scalar oids c among 1..99 and the named types for which, on every probe element p,\nDecodeType(one-element array of p, array oid) = [DecodeType(p, c)]) -/\n")
